@@ -456,12 +456,20 @@ func (r *Run) Sched(o SchedOpts) {
 			r.schedEvent(0, "clock")
 			time.Sleep(q)
 
+			if idle&255 == 0 {
+				progress.Add(1)
+			}
+
 			continue
 		}
 
 		idle = 0
 		steps++
 		r.Steps++
+
+		if r.Steps&1023 == 0 {
+			progress.Add(1) // the watchdog watches the kernel loop, not the length of a run
+		}
 
 		if steps > o.MaxSteps {
 			r.Truncated = true
